@@ -441,6 +441,7 @@ func c05Scenarios(tier string) []*Scenario {
 func (env *Env) addCall(calls *[]rlCall, c rlCall) { *calls = append(*calls, c) }
 
 func init() {
+	bxSystemSets["C05"] = c05Systems
 	scenarioSets["C05"] = c05Scenarios
 	register(&CheckDef{
 		Property:  "C05",
